@@ -583,19 +583,35 @@ class CacheWorld:
 
     # -- files
     def restore(self, snap):
+        """Make the directory equal to the snapshot.  Only files that differ from
+        what this object knows to be on disk are rewritten (the mirror is
+        refreshed by snapshot(); after a run without snapshot everything is
+        rewritten)."""
+        mirror = getattr(self, "_mirror", None)
         for m in self.modules:
             ver, mt = snap["src"][m]
+            if mirror is not None and mirror["src"].get(m) == [ver, mt]:
+                continue
             p = os.path.join(self.root, m + ".py")
             with open(p, "w") as f:
                 f.write(c18_source(m, ver))
             os.utime(p, (mt, mt))
-        shutil.rmtree(self.cache, ignore_errors=True)
+        if mirror is None:
+            shutil.rmtree(self.cache, ignore_errors=True)
+            have = {}
+        else:
+            have = mirror["pyc"]
+            for name in have:
+                if name not in snap["pyc"]:
+                    os.unlink(os.path.join(self.cache, name))
         if snap["pyc"]:
             os.makedirs(self.cache, exist_ok=True)
             for name, data in snap["pyc"].items():
-                with open(os.path.join(self.cache, name), "wb") as f:
-                    f.write(data)
+                if have.get(name) != data:
+                    with open(os.path.join(self.cache, name), "wb") as f:
+                        f.write(data)
         self.src = {m: list(v) for m, v in snap["src"].items()}
+        self._mirror = dict(src={m: list(v) for m, v in snap["src"].items()}, pyc=dict(snap["pyc"]))
 
     def snapshot(self):
         pyc = {}
@@ -603,6 +619,7 @@ class CacheWorld:
             for name in sorted(os.listdir(self.cache)):
                 with open(os.path.join(self.cache, name), "rb") as f:
                     pyc[name] = f.read()
+        self._mirror = dict(src={m: list(v) for m, v in self.src.items()}, pyc=dict(pyc))
         return dict(src={m: list(v) for m, v in self.src.items()}, pyc=pyc)
 
     def edit(self, m):
@@ -618,6 +635,8 @@ class CacheWorld:
             raise common.HarnessError("edit changed the file size")
         os.utime(p, (mt, mt))
         self.src[m] = [ver, mt]
+        if getattr(self, "_mirror", None) is not None:
+            self._mirror["src"][m] = [ver, mt]
 
     # -- canonical listing of the cache directory
     def classify(self, name, data):
@@ -684,10 +703,16 @@ class CacheWorld:
 
     def run(self, hooked, ck, order, cheap_probe=False, write=True):
         self.purge()
+        if write:
+            self._mirror = None  # the import system is about to write files
         res = c18_do_run(hooked, ck, order, self.modules, cheap_probe, write)
         if write and res["late_imports"]:
             raise common.HarnessError(f"library modules were imported while bytecode writing was on: {res['late_imports'][:5]}")
         return res
+
+    def subprocess_run(self, hooked, ck, order):
+        self._mirror = None  # another process is about to write files
+        return c18_subprocess_run(self.root, hooked, ck, order, self.modules)
 
     def warm_up(self):
         """Trigger every lazy import (typeguard, equinox via error formatting, ...)
